@@ -61,11 +61,24 @@ def set_id(b, op, depth=0):
     return ("unknown", place_str(pl))
 
 
+def filters_out_final(b, fc, final_ids):
+    """fc: an Iterator::filter call in b whose predicate is `!final.contains(x)` for a captured set that is
+    (one of) the final mask(s)"""
+    for cb in T.closure_bodies_passed(b, fc):
+        caps = common.closure_captures(b, cb)
+        negated = any(st["s"] == "assign" and st["pl"]["l"] == 0 and st["rv"]["r"] == "un" and st["rv"]["op"] == "Not" for i_, j_, st in cb.statements())
+        cont = [c for c in cb.calls() if c.f and c.f["path"] == SIG + "::contains"]
+        cap_ok = any(loc is not None and ("local", loc) in final_ids for n_, (loc, aps, _) in caps.items())
+        if negated and cont and cap_ok:
+            return True
+    return False
+
+
 def run(ck):
     f = ck.facts
     if not ck.has("signals"):
         return
-    okrets = lambda b: [i for i, j, st in b.statements() if st["s"] == "assign" and st["pl"]["l"] == 0 and st["rv"]["r"] == "agg" and st["rv"].get("variant") == "Ok" and not b.is_cleanup(i)]
+    okrets = lambda b: [i for i, j, st in b.statements() if st["s"] == "assign" and st["pl"]["l"] in T.ret_locals(b) and st["rv"]["r"] == "agg" and st["rv"].get("variant") == "Ok" and not b.is_cleanup(i)]
     for q in ("Signals::add_signals", "Signals::remove_signals", "Signals::set_signals"):
         b = ck.opt_body(q)
         if b is None:
@@ -102,6 +115,30 @@ def run(ck):
                 ck.violation("2", "T14-set-provenance", b, "unblock-disjoint-from-final-mask", "%s unblocks self.mask as a whole: signals that stay configured are unblocked for a moment, so a pending instance is delivered with its default disposition (the process is killed) instead of to the source" % q, site=b.where(u.bb))
                 continue
             adds = [a for a in sigcalls(b, "add") if set_id(b, a.args[0]) == rid]
+            if rid[0] == "local" and not adds:
+                # the set is collected from an iterator: `old.iter().filter(|s| !final.contains(s)).collect()`
+                ds = b.defs().get(rid[1], [])
+                coll = [b.call_at(d[1]) for d in ds if d[0] == "call" and b.call_at(d[1]).name in ("collect", "from_iter")]
+                if coll and len(coll) == len(ds):
+                    allok = True
+                    for cc in coll:
+                        chain, seen_bb, work = [], set(), [cc]
+                        while work:
+                            x = work.pop()
+                            if x is None or x.bb in seen_bb:
+                                continue
+                            seen_bb.add(x.bb)
+                            chain.append(x)
+                            for r_, p_ in b.resolve(x.args[0]) if x.args else []:
+                                if r_[0] == "call":
+                                    work.append(b.call_at(r_[1]))
+                        ok = False
+                        for fc in chain:
+                            if fc.name == "filter" and filters_out_final(b, fc, final_ids):
+                                ok = True
+                        allok = allok and ok
+                    ck.verdict(allok, "2", "T14-set-provenance", b, "unblock-disjoint-from-final-mask", "the unblocked set is collected from an iterator filtered by !final.contains(s): no signal of the final mask is in it", "%s unblocks a collected set that is not filtered against the final mask: signals that stay configured are unblocked, so a pending instance is delivered with its default disposition" % q, site=b.where(u.bb))
+                    continue
             if rid[0] != "local" or not adds:
                 ck.violation("2", "T14-set-provenance", b, "unblock-disjoint-from-final-mask", "the set handed to thread_unblock (%s) is not built element by element in this function" % (rid,), site=b.where(u.bb))
                 continue
@@ -128,13 +165,8 @@ def run(ck):
                         fc = b.call_at(r_[1])
                         if fc.name != "filter":
                             continue
-                        for cb in T.closure_bodies_passed(b, fc):
-                            caps = common.closure_captures(b, cb)
-                            negated = any(st["s"] == "assign" and st["pl"]["l"] == 0 and st["rv"]["r"] == "un" and st["rv"]["op"] == "Not" for i_, j_, st in cb.statements())
-                            cont = [c for c in cb.calls() if c.f and c.f["path"] == SIG + "::contains"]
-                            cap_ok = any(loc is not None and ("local", loc) in final_ids for n_, (loc, aps, _) in caps.items())
-                            if negated and cont and cap_ok:
-                                ok = True
+                        if filters_out_final(b, fc, final_ids):
+                            ok = True
                 # (b) the same element is removed from the final mask in the same iteration
                 for r_ in sigcalls(b, "remove"):
                     if set_id(b, r_.args[0]) in final_ids:
@@ -174,7 +206,7 @@ def run(ck):
     # ---- clause 4 ------------------------------------------------------------------------------------------------
     gn = T.calls(nw, name=("new", "new_with_error"), path="Generic")
     for c in gn:
-        interest = c.args[1].get("k", {}).get("const_path", c.args[1].get("k", {}).get("s", ""))
+        interest = T.const_name(nw, c.args[1])
         ck.verdict(interest.endswith("Interest::READ") and T.agg_variant(nw, c.args[2]) == {("sys::Mode", "Level")}, "4", "T6-provenance", nw, "signalfd-registered:READ+Level", "the signalfd is registered for READ, level-triggered", "the signalfd is not registered level-triggered for READ", site=nw.where(c.bb))
     pe = ck.body("4", "<Signals as EventSource>::process_events")
     cls = [c for cs in T.calls(pe, name="process_events", trait="EventSource") for c in T.closure_bodies_passed(pe, cs)]
